@@ -26,6 +26,10 @@ STMTS = [
     'nonlocal p', 'global p', 'def g():\n    def h():\n        nonlocal p\n        return p\n    return h',
     'r = lambda: p', 'class K:\n    def m(self):\n        nonlocal p', 'def g(p):\n    def h():\n        nonlocal p',
     'n = 0\ndef g():\n    nonlocal n\n    n += 1', 'def g():\n    nonlocal zz', 'x = b"\\xff" "a"', 'x = "a" b"b"', 'x = f"{a}" "b"',
+    # keywords as TEXT of an f-string, walrus as a positional argument, docstrings that are not one plain literal
+    'x = f"yield"', 'x = f"{y}return"', 'x = f"await" f"break{y}continue"', 'f(a := 1, b)', 'class D(a := 1, b): pass',
+    'f(a, b := 1, *c, d=2)', '"doc" "more"\nfrom __future__ import annotations', 'from __future__ import barry_as_FLUFL',
+    'from __future__ import annotations, division', "'''doc'''\nfrom __future__ import division",
 ]
 
 FRAME = {
